@@ -1,2 +1,180 @@
-use serde_json::{json, Value};
-pub fn cmd_machine(_req: &Value) -> Value { json!({"err": "not implemented"}) }
+//! machine: script on a fresh CoreRuntime (the real PC-E500 runtime of the Rust core).
+use serde_json::{json, Map, Value};
+use std::cell::RefCell;
+use std::rc::Rc;
+
+use sc62015_core::llama::opcodes::RegName;
+use sc62015_core::timer::TimerContext;
+use sc62015_core::{AsyncRuntimeRunner, CoreRuntime};
+
+use crate::devices::{configure_memory, hex, lcd_obs, u, unhex};
+use crate::{power_name, reg_by_name, regs_json};
+
+fn new_runtime(cfg: Option<&Value>) -> CoreRuntime {
+    let mut rt = CoreRuntime::new();
+    if let Some(cfg) = cfg {
+        configure_memory(&mut rt.memory, cfg);
+        if let Some(Value::Array(roms)) = cfg.get("rom") {
+            // [[start, hex], ...] written into external memory (before read-only ranges matter: raw writes)
+            for r in roms {
+                let start = u(r, 0) as usize;
+                let data = unhex(r.as_array().and_then(|a| a.get(1)).and_then(|x| x.as_str()).unwrap_or(""));
+                rt.memory.write_external_slice(start, &data);
+            }
+        }
+        if let Some(t) = cfg.get("timer") {
+            *rt.timer = TimerContext::new(t[0].as_bool().unwrap_or(false), t[1].as_i64().unwrap_or(0) as i32,
+                                          t[2].as_i64().unwrap_or(0) as i32);
+        }
+        if let Some(b) = cfg.get("kb_irq").and_then(|v| v.as_bool()) {
+            rt.timer.set_keyboard_irq_enabled(b);
+        }
+        if let Some(Value::Object(m)) = cfg.get("regs") {
+            for (k, v) in m {
+                if let Some(r) = reg_by_name(k) {
+                    rt.state.set_reg(r, v.as_u64().unwrap_or(0) as u32);
+                }
+            }
+        }
+        if let Some(Value::Array(im)) = cfg.get("imem") {
+            for p in im {
+                rt.memory.write_internal_byte(u(p, 0) as u32, u(p, 1) as u8);
+            }
+        }
+        if let Some(p) = cfg.get("kb_press").and_then(|v| v.as_u64()) {
+            if let Some(kb) = rt.keyboard.as_mut() {
+                kb.set_press_threshold(p as u8);
+            }
+        }
+    }
+    rt
+}
+
+fn observe(rt: &mut CoreRuntime, spec: &Value) -> Value {
+    let mut o = Map::new();
+    o.insert("regs".into(), regs_json(&rt.state, false));
+    o.insert("power".into(), json!(power_name(rt.state.power_state())));
+    o.insert("cycles".into(), json!(rt.cycle_count()));
+    o.insert("instructions".into(), json!(rt.instruction_count()));
+    o.insert("imem".into(), json!(hex(rt.memory.internal_slice())));
+    let t = &rt.timer;
+    o.insert("timer".into(), json!({
+        "enabled": t.enabled, "mti_period": t.mti_period, "sti_period": t.sti_period,
+        "next_mti": t.next_mti, "next_sti": t.next_sti, "irq_pending": t.irq_pending,
+        "in_interrupt": t.in_interrupt, "irq_source": t.irq_source, "key_irq_latched": t.key_irq_latched,
+        "irq_total": t.irq_total, "irq_mti": t.irq_mti, "irq_sti": t.irq_sti, "irq_key": t.irq_key,
+        "delivered_masks": t.delivered_masks, "kb_irq_enabled": t.kb_irq_enabled,
+    }));
+    if let Some(Value::Array(ranges)) = spec.get("mem") {
+        let mut m = Vec::new();
+        for r in ranges {
+            let start = u(r, 0) as u32;
+            let len = u(r, 1) as u32;
+            let bytes: Vec<u8> = (0..len).map(|i| rt.memory.load(start + i, 8).unwrap_or(0) as u8).collect();
+            m.push(json!([start, hex(&bytes)]));
+        }
+        o.insert("mem".into(), json!(m));
+    }
+    if let Some(kb) = rt.keyboard.as_ref() {
+        let snap = kb.snapshot_state();
+        o.insert("kbd".into(), json!({"fifo": kb.fifo_snapshot(), "kol": snap.kol, "koh": snap.koh,
+                                      "kil": kb.compute_kil(false), "pressed": snap.pressed_keys}));
+    }
+    if spec.get("lcd").and_then(|v| v.as_bool()).unwrap_or(false) {
+        if let Some(lcd) = rt.lcd.as_mut() {
+            if let Some(ctrl) = lcd.as_any_mut().downcast_mut::<sc62015_core::lcd::LcdController>() {
+                o.insert("lcd".into(), lcd_obs(ctrl, spec.get("disp").and_then(|v| v.as_bool()).unwrap_or(false)));
+            }
+        }
+    }
+    Value::Object(o)
+}
+
+pub fn cmd_machine(req: &Value) -> Value {
+    let cfg = req.get("cfg");
+    let rt = Rc::new(RefCell::new(new_runtime(cfg)));
+    let mut out: Vec<Value> = Vec::new();
+    let empty = json!({});
+    let obs_spec = req.get("obs").unwrap_or(&empty).clone();
+    let obs_each = req.get("obs_each").and_then(|v| v.as_bool()).unwrap_or(false);
+    if let Some(Value::Array(ops)) = req.get("script") {
+        for op in ops {
+            let mut res = Map::new();
+            if let Some(n) = op.get("step").and_then(|v| v.as_u64()) {
+                if let Err(e) = rt.borrow_mut().step(n as usize) {
+                    res.insert("err".into(), json!(format!("{e}")));
+                }
+            } else if op.get("press_on").is_some() {
+                rt.borrow_mut().press_on_key();
+            } else if op.get("release_on").is_some() {
+                rt.borrow_mut().release_on_key();
+            } else if let Some(c) = op.get("press").and_then(|v| v.as_u64()) {
+                let mut r = rt.borrow_mut();
+                let r = &mut *r;
+                if let Some(kb) = r.keyboard.as_mut() {
+                    kb.press_matrix_code(c as u8, &mut r.memory);
+                }
+            } else if let Some(c) = op.get("release").and_then(|v| v.as_u64()) {
+                let mut r = rt.borrow_mut();
+                let r = &mut *r;
+                if let Some(kb) = r.keyboard.as_mut() {
+                    kb.release_matrix_code(c as u8, &mut r.memory);
+                }
+            } else if let Some(a) = op.get("inject") {
+                let mut r = rt.borrow_mut();
+                let r = &mut *r;
+                let en = r.timer.kb_irq_enabled;
+                if let Some(kb) = r.keyboard.as_mut() {
+                    let n = kb.inject_matrix_event(u(a, 0) as u8, u(a, 1) != 0, &mut r.memory, en);
+                    res.insert("events".into(), json!(n));
+                    if n > 0 && en {
+                        r.timer.key_irq_latched = true;
+                    }
+                }
+            } else if let Some(a) = op.get("poke") {
+                let _ = rt.borrow_mut().memory.store(u(a, 0) as u32, 8, u(a, 1) as u32);
+            } else if let Some(a) = op.get("imem") {
+                rt.borrow_mut().memory.write_internal_byte(u(a, 0) as u32, u(a, 1) as u8);
+            } else if let Some(Value::Object(m)) = op.get("reg") {
+                for (k, v) in m {
+                    if let Some(r) = reg_by_name(k) {
+                        rt.borrow_mut().state.set_reg(r, v.as_u64().unwrap_or(0) as u32);
+                    }
+                }
+            } else if let Some(p) = op.get("save").and_then(|v| v.as_str()) {
+                if let Err(e) = rt.borrow().save_snapshot(std::path::Path::new(p)) {
+                    res.insert("err".into(), json!(format!("{e}")));
+                }
+            } else if let Some(p) = op.get("load").and_then(|v| v.as_str()) {
+                // fresh runtime with the same configuration, then load
+                let mut fresh = new_runtime(cfg);
+                match fresh.load_snapshot(std::path::Path::new(p)) {
+                    Ok(()) => {
+                        *rt.borrow_mut() = fresh;
+                    }
+                    Err(e) => {
+                        res.insert("err".into(), json!(format!("{e}")));
+                    }
+                }
+            } else if let Some(a) = op.get("async_run") {
+                let mut runner = AsyncRuntimeRunner::new(rt.clone()).with_slice_cycles(u(a, 1).max(1));
+                match runner.run_instructions(u(a, 0) as usize) {
+                    Ok(st) => {
+                        res.insert("async".into(), json!({"instructions": st.instructions_executed, "cycles": st.cycles_executed}));
+                    }
+                    Err(e) => {
+                        res.insert("err".into(), json!(format!("{e}")));
+                    }
+                }
+            } else if op.get("obs").is_some() {
+                res.insert("obs".into(), observe(&mut rt.borrow_mut(), &obs_spec));
+            }
+            if obs_each && !res.contains_key("obs") {
+                res.insert("obs".into(), observe(&mut rt.borrow_mut(), &obs_spec));
+            }
+            out.push(Value::Object(res));
+        }
+    }
+    let _ = RegName::A;
+    json!({"out": out})
+}
